@@ -305,3 +305,25 @@ func ZZ_C06_Loader() {
 	s.RangeEntry(func(e *Entry[uint64, uint64]) { total += e.weight.Load() })
 	vfAssert("loader-resident-cost-within-max", total <= h.capv)
 }
+
+// ZZ_C06_Doorkeeper: from an arbitrary doorkeeper state (any reset counter, any filter contents) a new key
+// that is offered twice in a row is admitted the second time (Bloom filters have no false negatives, and a
+// reset happens at most once between the two sightings).
+func ZZ_C06_Doorkeeper() {
+	vfSetHashMode(1)
+	StripedBufferSize = 1
+	s := NewStore[uint64, uint64](&StoreOptions[uint64, uint64]{MaxSize: 10, Doorkeeper: true})
+	shard := s.shards[zzIndex(s, 1)]
+	shard.counter = vfUint("counter")
+	shard.dookeeper.Filter = vfSymU64Slice("filter", len(shard.dookeeper.Filter))
+	ok1 := s.Set(1, 100, 1, 0)
+	ok2 := s.Set(1, 101, 1, 0)
+	vfReach("two-sets")
+	vfAssert("second-sighting-admitted", ok2)
+	if !ok1 {
+		vfReach("first-sight-rejected")
+		v, hit := s.Get(1)
+		vfAssert("second-sighting-readable", hit && v == 101)
+	}
+	vfAssert("counter-bounded-by-capacity-plus-one", shard.counter <= uint(shard.dookeeper.Capacity)+1)
+}
